@@ -155,6 +155,24 @@ def generate(rng, tier, seed):
                 c = Case(f"{ver}:unpadded-header-short-tail", {"block": blk, "tail": t})
                 targets(c, rng, rb(rng, ksizes[0]), s_)
                 yield c
+    # the same, constructed rather than drawn: an unaligned header, key data of exactly k cipher blocks and a MAC of the right
+    # length, with just as many whitespace characters among the hex digits as make the *text* a block multiple - every length check
+    # passes and the MAC is computed over bytes that are not a whole number of blocks
+    for ver in "ABCD":
+        bs, ksizes, ml = VERS[ver]
+        for blk in ("TT07A1B", "TT05x", "KS0Babcdefg", "T105y", "T106yz"):
+            for k in (1, 2, 3):
+                w = (-(16 + len(blk) + 2 * (k * bs + ml))) % bs
+                if w == 0:
+                    continue
+                for ws, at in ((" ", 2), ("\n", 2 * k * bs), ("\t", 0), (" ", 2 * (k * bs + ml))):
+                    hexs = "".join(rng.choice("0123456789ABCDEF") for _ in range(2 * (k * bs + ml)))
+                    tail = hexs[:at] + ws * w + hexs[at:]
+                    total = 16 + len(blk) + len(tail)
+                    s_ = ver + str(total).zfill(4) + "P0TE00N0100" + blk + tail
+                    c = Case(f"{ver}:unaligned-header-whitespace-makes-text-aligned", {"block": blk, "blocks": k, "ws": w})
+                    targets(c, rng, rb(rng, ksizes[-1]), s_)
+                    yield c
     # authentic blocks (built by the specification under the KBPK, so that the paths behind the MAC check are reached): arbitrary
     # clear data behind a correct MAC, and - versions A / C, whose MAC covers the ciphertext - arbitrary ciphertext of any length,
     # whole cipher blocks or not, empty included
